@@ -1300,4 +1300,54 @@ def extract_default(
          """    if isinstance(_param["default"], AST):
         try:""", """    if isinstance(_param["default"], (ast.Constant, ast.Num, ast.Str)):
         try:""")]),
+    # ---- TARGET-COVER (C09)
+    dict(id="targetcover-first-of-truth-kind-skipped", kind=B, props=["C09"], expect="TARGET-COVER", edits=[("conformance.py",
+         """                    type_wanted=type_wanted,
+                ),
+                filenames,""", """                    type_wanted=type_wanted,
+                ),
+                filenames[1:] if fun_name == args.truth else filenames,""")]),
+    dict(id="targetcover-existing-files-only", kind=B, props=["C09"], expect="TARGET-COVER", edits=[("conformance.py",
+         """                    type_wanted=type_wanted,
+                ),
+                filenames,""", """                    type_wanted=type_wanted,
+                ),
+                filter(path.isfile, filenames),""")]),
+    dict(id="targetcover-neutral-list-copy", kind=N, props=["C09", "C10"], expect="silent", edits=[("conformance.py",
+         """                    type_wanted=type_wanted,
+                ),
+                filenames,""", """                    type_wanted=type_wanted,
+                ),
+                list(filenames),""")]),
+    # ---- round 7 (second half): REJOIN-COVER, RECEIVER-SITES, ARGPARSE-VERBATIM, WRAP-NOT-TYPE, TextWrapper objects, TABLE-announce over a table
+    dict(id="rejoincover-only-with-default", kind=B, props=["C03", "C08", "C18"], expect="REJOIN-COVER", edits=[("parse.py",
+         """    if "return_type" in (intermediate_repr.get("returns") or iter(())):""",
+         """    if "default" in (intermediate_repr.get("returns") or {}).get("return_type", ()):""")]),
+    dict(id="rejoincover-neutral-truthy-returns", kind=N, props=["C03", "C08", "C18"], expect="silent", edits=[("parse.py",
+         """    if "return_type" in (intermediate_repr.get("returns") or iter(())):""",
+         """    if intermediate_repr.get("returns") and "return_type" in intermediate_repr["returns"]:""")]),
+    dict(id="receiver-self-only", kind=B, props=["C11", "C14", "C15"], expect="RECEIVER-SITES", edits=[("ast_utils.py",
+         """                            in frozenset(("self", "cls"))""", """                            == "self\"""")]),
+    dict(id="receiver-neutral-tuple", kind=N, props=["C11", "C14", "C15"], expect="silent", edits=[("ast_utils.py",
+         """                            in frozenset(("self", "cls"))""", """                            in ("cls", "self")""")]),
+    dict(id="argparse-description-percent-doubled", kind=B, props=["C06"], expect="ARGPARSE-VERBATIM", edits=[("emit.py",
+         """                                    (fill if wrap_description else identity)(
+                                        intermediate_repr["doc"]
+                                    )""", """                                    (fill if wrap_description else identity)(
+                                        intermediate_repr["doc"]
+                                    ).replace("%", "%%")""")]),
+    dict(id="wrapnottype-google-entry-wrapped", kind=B, props=["C18", "C01"], expect="WRAP-NOT-TYPE", edits=[("docstring_utils.py",
+         """                    else None,
+                ),
+            )
+        )
+
+
+Tokens""", """                    else None,
+                ),
+            )
+        ) if not word_wrap or name == "return_type" else _fill("".join(filter(None, ("  {name} ({typ}): ".format(name=name, typ=_param.get("typ") or ""), doc or ""))))
+
+
+Tokens""")]),
 ]
